@@ -74,6 +74,23 @@ CHECKS = {
         real=REAL_COMMON, stub=['allocator placement and faults (simalloc)', 'pthread primitives (simsched, c07mt)', 'guarded hooks: probe for the stream-end shortcut, index jump'],
         assumptions=['logical call = (slice, directive) drained by as many physical calls as the output capacities require', 'c07mt restricts histories to continue + final end because how much a non-blocking MT call consumes is schedule dependent'],
     ),
+    'C04': dict(
+        level='exploration',
+        batches=[dict(scenario='c04decvar', flavour='P', quick=6000, thorough=200000, corpus=dict(quick=600, thorough=4000)),
+                 dict(scenario='c04decvar', flavour='A', quick=1500, thorough=30000, corpus=dict(quick=600, thorough=4000)),
+                 dict(scenario='c04decvar', flavour='N', quick=1500, thorough=30000, corpus=dict(quick=600, thorough=4000))],
+        rule='frame sources: compressor output under random parameters/dictionaries (5/8), spec-valid exotic frames from tests/decodecorpus.c seeded by the run root (2/8), wire-faulted frames the reference still accepts (1/8); each decoded through 8 paths (one-shot, simple API, streaming under the plan segmentation, streaming with disableHuffmanAssembly, stable output buffer, buffer-less, in-place, DDict cold+warm) with the decoder coins (HUF X1<->X2, prefetch sequence decoder, BMI2 off) set per path; distinct = distinct plan signature; non-trivial = reference output non-empty',
+        real=REAL_COMMON + ['tests/decodecorpus.c (repository generator, built stand-alone) as frame source'], stub=['independent reference decoder R (ref/)', 'decoder-variant coins decided by the simulator (guarded hooks)', 'allocator'],
+        assumptions=['quantifier is over frames R accepts: corpus or faulted frames R rejects are skipped and counted (probes c04.*_rejected_by_R)', 'flavour N = build variant with ZSTD_DISABLE_ASM and DYNAMIC_BMI2=0'],
+    ),
+    'C03': dict(
+        level='exploration',
+        batches=[dict(scenario='c03fuzz', flavour='A', quick=5000, thorough=150000, corpus=dict(quick=600, thorough=4000)),
+                 dict(scenario='c03fuzz', flavour='P', quick=5000, thorough=150000, corpus=dict(quick=600, thorough=4000))],
+        rule='1-4 wire faults (bit flip, header bit flip, truncation, smear, stale splice, zeroed 4 KiB page, appended garbage, duplicated segment, length-field bump) on valid traffic (compressor frames, decodecorpus frames, legacy frames) or pure garbage with/without magic, damaged dictionary store; fed to 8 decode paths x 4 capacity modes + inspectors + block API + dictionary loaders; distinct = distinct plan signature',
+        real=REAL_COMMON, stub=['the wire and the dictionary store (faults)', 'decoder-variant coins', 'allocator'],
+        assumptions=['structure-preserving seeded mutation, not coverage-guided fuzzing: weaker than libFuzzer for deep near-valid inputs', 'streaming decoders run with windowLogMax 25 so that lying window descriptors cannot exhaust memory', 'flavour A (ASan+UBSan) is the detector; P adds guard-zone checks at higher volume'],
+    ),
 }
 
 def default_root(tier):
@@ -89,6 +106,7 @@ def run_check(prop, tier, extra_hook=None):
     for b in cfg['batches']:
         runs = b[tier]
         if runs <= 0: continue
+        if b.get('corpus'): vlib.ensure_corpus(root & 0xffff, b['corpus'][tier])
         r = vlib.run_batch(b['flavour'], b['scenario'], root, runs, tier, workers=b.get('workers'), time_cap=b.get('time_cap_' + tier), cpu_cap=b.get('cpu_cap', 120))
         batches_ev.append(dict(scenario=b['scenario'], flavour=b['flavour'], runs=r.evaluations, distinct_nontrivial=r.nontrivial, wall_s=round(r.wall, 1),
                                distinct_schedules=len(r.sched_sigs), failures=len(r.failures), truncated=r.truncated))
